@@ -73,8 +73,8 @@ def run(ctx):
         step = 900
         for s in range(0, len(groups), step):
             st = lc.decide(ctx, exe, "C13g%d" % (s // step), groups[s:s + step], MODE, known, nontrivial=nontrivial)
-            for k in tot:
-                tot[k] += st[k]
+            for k in st:
+                tot[k] = tot.get(k, 0) + st[k]
         dist.update(structured=n, soup=m, short=len(groups) - n - m, **{"verdict_" + k: v for k, v in tot.items()})
         kinds = {}
         for g in groups:
